@@ -80,10 +80,43 @@ func (a *fieldAggregator) ResultSet() (startTime int64, it series.FieldIterator)
 func (a *fieldAggregator) Aggregate(it series.FieldIterator) {
 	for it.HasNext() {
 		pIt := it.Next()
+		// a primitive series only belongs to the values of its own aggregate type
+		aggIdx := -1
+		for idx, aggType := range a.aggTypes {
+			if aggType == pIt.AggType() {
+				aggIdx = idx
+				break
+			}
+		}
 		for pIt.HasNext() {
 			slot, value := pIt.Next()
-			a.AggregateBySlot(slot, value)
+			if aggIdx < 0 {
+				a.AggregateBySlot(slot, value)
+				continue
+			}
+			a.aggregateBySlotOfType(aggIdx, slot, value)
 		}
+	}
+}
+
+// aggregateBySlotOfType aggregates the value into the values of one aggregate type.
+func (a *fieldAggregator) aggregateBySlotOfType(idx, slot int, value float64) {
+	// drop inf value
+	if math.IsInf(value, 1) {
+		return
+	}
+	pos := slot - a.start
+	values := a.fieldSeriesList[idx]
+	if values == nil {
+		values = collections.NewFloatArray(a.end - a.start + 1)
+		values.SetValue(pos, value)
+		a.fieldSeriesList[idx] = values
+		return
+	}
+	if values.HasValue(pos) {
+		values.SetValue(pos, a.aggTypes[idx].Aggregate(values.GetValue(pos), value))
+	} else {
+		values.SetValue(pos, value)
 	}
 }
 
